@@ -51,6 +51,23 @@ def guarded(fn, seconds=120):
         signal.signal(signal.SIGALRM, old)
 
 
+class debug_logging:
+    """the embedding application has switched logging to DEBUG (root logger, no output)"""
+
+    def __enter__(self):
+        import logging
+        self.root = logging.getLogger()
+        self.level = self.root.level
+        self.handler = logging.NullHandler()
+        self.root.addHandler(self.handler)
+        self.root.setLevel(logging.DEBUG)
+        return self
+
+    def __exit__(self, *a):
+        self.root.setLevel(self.level)
+        self.root.removeHandler(self.handler)
+
+
 def tag_graph(g):
     """attach unique tags in place (driver-owned objects only)"""
     for a in g.nodes:
@@ -343,11 +360,13 @@ class Session:
 
     def sametext(self, a, b, perm, pfx, strict=False, samegraph=False):
         """a, b: ids returned by read(); the claim is verified by the spec on the DECODED molecules"""
-        ra, rb = self.read_ids.get(a, a), self.read_ids.get(b, b)
+        ids = getattr(self, "read_ids", {})
+        ra, rb = ids.get(a, a), ids.get(b, b)
         self.ev.append({"op": "sametext", "a": ra, "b": rb, "perm": list(perm), "pfx": pfx, "strict": strict, "samegraph": samegraph})
 
     def distincttext(self, a, b):
-        ra, rb = self.read_ids.get(a, a), self.read_ids.get(b, b)
+        ids = getattr(self, "read_ids", {})
+        ra, rb = ids.get(a, a), ids.get(b, b)
         self.ev.append({"op": "distincttext", "a": ra, "b": rb})
 
     def write(self, k, live=None, relabel=None):
@@ -355,6 +374,7 @@ class Session:
         `relabel` (label of k -> label of live); the log states everything in k's labels"""
         from tucan.io import graph_to_molfile
         g = self.objs[k]
+        before = project(g)
         try:
             text = graph_to_molfile(live if live is not None else g)
         except BaseException as ex:  # noqa
@@ -374,6 +394,9 @@ class Session:
                     except Exception:
                         pass
         self.ev.append({"op": "write", "arg": k, "lines": lines, "xyz6": xyz6, "six": six, "bonds": bonds})
+        after = project(g)
+        if "bad" not in before and "bad" not in after and after != before:
+            self.ev.append({"op": "changed", "obj": k, "g": after, "by": "graph_to_molfile"})
         return lines
 
     def result(self, key, val, clause):
